@@ -77,6 +77,18 @@ Theorem C05_alpha_rgba :
 Proof. exact alpha_rgba. Qed.
 Print Assumptions C05_alpha_rgba.
 
+(* the alpha is printed as the canonical decimal: complete sweep over every alpha of one or two digits
+   ([hundredths_text n] = "0", "0.d" or "0.dd" without trailing zero for n/100) *)
+Theorem C05_alpha_hundredths :
+  forall n, n < 100 -> frac (mkDec false n 2) 8 = hundredths_text n.
+Proof. exact frac_hundredths. Qed.
+Print Assumptions C05_alpha_hundredths.
+
+Theorem C05_alpha_tenths :
+  forall d, d < 10 -> frac (mkDec false d 1) 8 = hundredths_text (10 * d).
+Proof. exact frac_tenths. Qed.
+Print Assumptions C05_alpha_tenths.
+
 (* ---- units: the decision rule ([unit_spec], proofs/StyleProofs.v:
      explicit unit -> through the alias table; else bare when the value is 0 or the property is
      unitless; else floatUnit iff the raw text contains '.', else intUnit) *)
